@@ -255,11 +255,23 @@ def e2e(rng, res, n):
                                              'length mismatch'))
                 else:
                     for lang in b:
-                        for part in b[lang]:
+                        for k, part in enumerate(b[lang]):
                             if len(part[0]) != len(part[1]):
                                 res.failures.append((
                                     'e2e-ml:%r' % d, {'latex': d},
                                     'length mismatch in part'))
+                            # a main-language part: replace_phrases applied to the
+                            # part of the run without replacements
+                            if lang in a and k < len(a[lang]) and lang == 'en':
+                                pa = a[lang][k]
+                                exp = utils.replace_phrases(pa[0], list(pa[1]), r)
+                                if (part[0], list(part[1])) != (exp[0], list(exp[1])):
+                                    res.failures.append((
+                                        'e2e-ml-pos:%r:%r' % (d, r), {'latex': d, 'repl': r, 'multi': True},
+                                        'multi-language part %d of %s: text/positions %r, '
+                                        'replace_phrases on the part without replacements gives %r'
+                                        % (k, lang, (part[0][:30], list(part[1])[:8]),
+                                           (exp[0][:30], list(exp[1])[:8]))))
 
 
 def file_rules(res):
